@@ -421,6 +421,8 @@ pub struct KnownFinding {
     pub status: String,
     pub class_prefix: String,
     pub what: String,
+    /// replay file (relative to /verif) that demonstrates an open finding
+    pub replay: Option<String>,
 }
 
 pub fn load_known() -> Result<Vec<KnownFinding>, String> {
@@ -436,6 +438,7 @@ pub fn load_known() -> Result<Vec<KnownFinding>, String> {
             status: f.get("status").and_then(Value::as_str).unwrap_or("").to_string(),
             class_prefix: f.get("class_prefix").and_then(Value::as_str).unwrap_or("\u{0}").to_string(),
             what: f.get("what").and_then(Value::as_str).unwrap_or("").to_string(),
+            replay: f.get("replay").and_then(Value::as_str).map(str::to_string),
         });
     }
     Ok(out)
@@ -468,6 +471,30 @@ pub fn run_check(plan: Plan, o: &CheckOpts) -> i32 {
     let mut truncated = false;
     let mut exit = 0;
     let mut rules = Vec::new();
+    // open findings are re-demonstrated first, from their recorded case: the line is printed when
+    // (and only when) the recorded case still fails in the recorded way on the tree under test
+    for k in known.iter().filter(|k| k.status == "open" && k.property == plan.prop) {
+        let Some(rp) = &k.replay else { continue };
+        let Ok(text) = std::fs::read_to_string(verif_root().join(rp)) else {
+            eprintln!("harness error: replay file of a listed finding is missing: {rp}");
+            return 2;
+        };
+        let Ok(doc) = serde_json::from_str::<Value>(&text) else {
+            eprintln!("harness error: replay file of a listed finding is not JSON: {rp}");
+            return 2;
+        };
+        let name = doc["scenario"].as_str().unwrap_or("");
+        let Some(b) = plan.batches.iter().find(|b| b.scen.name() == name) else { continue };
+        let (_, r, hp) = execute_case(b.scen.as_ref(), &doc["case"], false);
+        if let Some(m) = hp {
+            eprintln!("harness error: replay of a listed finding panicked outside the system under test: {m}");
+            return 2;
+        }
+        if matches!(&r, Err(v) if v.class.starts_with(&k.class_prefix)) {
+            let e = known_hits.entry(k.class_prefix.clone()).or_insert((k.what.clone(), 0));
+            e.1 += 1;
+        }
+    }
     let mut all_enumerated = true;
 
     'batches: for b in &plan.batches {
